@@ -34,3 +34,6 @@ for _p in ("C09", "C18"):
 PROPS["C19"]["rule"] += ("; accepted and rejected Puts through one replayer in every order up to length 5 (a message without ID, a clone with an "
                          "explicit ID, the copy the last accepted Put returned), all four replayers; the random sequences follow which members "
                          "carry an ID, publish any member (earlier publications included) and contain bursts of 2-4 Puts through one replayer")
+PROPS["C09"]["level_text"] += (" What the specification stores is at every moment the last k accepted puts for some k - collections, clock readings and "
+                               "interval assignments only ever drop a prefix (C09_stores_a_suffix_of_the_accepted_puts, C09_suffix_invariant; FifoSuffix.v) - "
+                               "the shape the end-to-end composition of C05 needs of a replayer.")
